@@ -743,9 +743,24 @@ struct Driver
         long n = 0;
         (((void)cntgs::get<I>(e), ++n), ...);
         (((void)cntgs::get<I>(ce), ++n), ...);
+        // get<I>(Element&&) and get<I>(const Element&) must denote what get<I>(Element&) denotes
         Elem tmp(ce);
-        ((void)cntgs::get<I>(std::move(tmp)), ...);     // get<I>(Element&&)
+        const bool same = (same_field(cntgs::get<I>(e), cntgs::get<I>(std::move(tmp))) && ...) &&
+                          (same_field(cntgs::get<I>(e), cntgs::get<I>(ce)) && ...);
+        if (!same)
+        {
+            fprintf(stderr, "VERIF-API: get<I> of an rvalue / const element differs from get<I> of the element\n");
+            abort();
+        }
         return n;
+    }
+    template <class A, class B>
+    static bool same_field(const A& a, const B& b)
+    {
+        if constexpr (std::is_class_v<A> && !VT<A>::tracked && !std::is_same_v<A, std::string> && !IS_BLOB<A>)
+            return a.size() == b.size() && std::equal(a.begin(), a.end(), b.begin());   // spans
+        else
+            return a == b;
     }
 #endif
 #endif
@@ -1722,6 +1737,12 @@ inline std::string classify_stderr(const std::string& path, int status)
         if (line.find("terminate called") != std::string::npos)
         {
             kind = "TERMINATE";
+            msg = line;
+            break;
+        }
+        if (line.find("VERIF-API") != std::string::npos)
+        {
+            kind = "API_MISMATCH";
             msg = line;
             break;
         }
